@@ -137,6 +137,15 @@ func PathString(r *run.Rng, generator bool) (string, []PathOp) {
 				n := PathNArgs[sg.verb]
 				for i := 0; i < n; i++ {
 					v, sp := spell(r, n == 7 && (i == 3 || i == 4), generator)
+					if n == 7 && i == 2 && r.Chance(1, 3) {
+						// an arc's rotation in degrees is any number: quarter and full turns, more than a full turn
+						d := r.Pick(90, 180, 270, 359, 360, 361, 450, 540, 720, r.Range(100, 800))
+						sp = strconv.Itoa(d)
+						if r.Chance(1, 3) {
+							sp = "-" + sp
+						}
+						v, _ = strconv.ParseFloat(sp, 64)
+					}
 					p.N = append(p.N, v)
 					all = append(all, sp)
 				}
